@@ -85,4 +85,7 @@ theorem mac2V_iff (C : Cipher) (key a b t : Bytes) (ht : t.length ≤ 8) :
   simp only [mac2V, macStepV, decide_eq_true_eq, mac2, macStepG, List.take_take]
   rw [Nat.min_eq_left ht]
 
+theorem mac2_take8 (C : Cipher) (key a b : Bytes) : (mac2 C key a b).take 8 = mac2 C key a b := by
+  simp only [mac2, macStepG, List.take_take, Nat.min_self]
+
 end Bee2V.C17
